@@ -2044,15 +2044,33 @@ func nonZeroAt(v ssa.Value, at *ssa.BasicBlock, depth int) bool {
 		if !ok {
 			continue
 		}
+		// go/ssa does not merge two len(x) of the same x: a test of one speaks for the other
+		sameAs := func(a ssa.Value) bool {
+			if a == v {
+				return true
+			}
+			c1, ok1 := a.(*ssa.Call)
+			c2, ok2 := v.(*ssa.Call)
+			if !ok1 || !ok2 {
+				return false
+			}
+			b1, ok1 := c1.Call.Value.(*ssa.Builtin)
+			b2, ok2 := c2.Call.Value.(*ssa.Builtin)
+			if !ok1 || !ok2 || b1.Name() != "len" || b2.Name() != "len" {
+				return false
+			}
+			p1, p2 := pathString(stripLoadsAddr(c1.Call.Args[0])), pathString(stripLoadsAddr(c2.Call.Args[0]))
+			return p1 != "" && p1 == p2
+		}
 		var c int64
 		var op token.Token
-		if cmp.X == v {
+		if sameAs(cmp.X) {
 			k, ok := constInt(cmp.Y)
 			if !ok {
 				continue
 			}
 			c, op = k, cmp.Op
-		} else if cmp.Y == v {
+		} else if sameAs(cmp.Y) {
 			k, ok := constInt(cmp.X)
 			if !ok {
 				continue
